@@ -15,11 +15,30 @@ type JSONStyle struct {
 	Minimal     bool // Overpass style: no visible, only present metadata; else API style (all metadata keys)
 	Shuffle     bool // key order
 	Pretty      bool // whitespace
+	// VersionNum is the JSON number literal written when VersionKind is 1 ("" = 0.6).
+	VersionNum string
+	// NoTypeAt > 0: the NoTypeAt-th element (1-based) is written without its
+	// "type" key (NoTypeNull: with "type":null) - not osmjson any more; used
+	// for the element-independence relation only.
+	NoTypeAt   int
+	NoTypeNull bool
 }
 
 type jw struct {
-	s   JSONStyle
-	rnd *rand.Rand
+	s      JSONStyle
+	rnd    *rand.Rand
+	noType bool // the element being written loses its type
+}
+
+func (w *jw) typed(kvs []kv) []kv {
+	if !w.noType {
+		return kvs
+	}
+	if w.s.NoTypeNull {
+		kvs[0].v = "null"
+		return kvs
+	}
+	return kvs[1:]
 }
 
 func jstr(s string) string {
@@ -82,7 +101,7 @@ func (w *jw) meta(kvs []kv, user string, uid int64, visible bool, version int, c
 }
 
 func (w *jw) node(n *Node) string {
-	kvs := []kv{{"type", `"node"`}, {"id", i64(n.ID)}, {"lat", jf(n.Lat)}, {"lon", jf(n.Lon)}}
+	kvs := w.typed([]kv{{"type", `"node"`}, {"id", i64(n.ID)}, {"lat", jf(n.Lat)}, {"lon", jf(n.Lon)}})
 	kvs = w.meta(kvs, n.User, n.UID, n.Visible, n.Version, n.CS, n.T)
 	if len(n.Tags) > 0 || w.rnd.Intn(3) == 0 {
 		kvs = append(kvs, kv{"tags", w.tags(n.Tags)})
@@ -91,7 +110,7 @@ func (w *jw) node(n *Node) string {
 }
 
 func (w *jw) way(x *Way) string {
-	kvs := []kv{{"type", `"way"`}, {"id", i64(x.ID)}}
+	kvs := w.typed([]kv{{"type", `"way"`}, {"id", i64(x.ID)}})
 	kvs = w.meta(kvs, x.User, x.UID, x.Visible, x.Version, x.CS, x.T)
 	ids := make([]string, len(x.Nodes))
 	for i, n := range x.Nodes {
@@ -105,7 +124,7 @@ func (w *jw) way(x *Way) string {
 }
 
 func (w *jw) relation(x *Relation) string {
-	kvs := []kv{{"type", `"relation"`}, {"id", i64(x.ID)}}
+	kvs := w.typed([]kv{{"type", `"relation"`}, {"id", i64(x.ID)}})
 	kvs = w.meta(kvs, x.User, x.UID, x.Visible, x.Version, x.CS, x.T)
 	ms := make([]string, len(x.Members))
 	for i, m := range x.Members {
@@ -125,7 +144,11 @@ func RenderJSON(d *Doc, s JSONStyle) string {
 	var kvs []kv
 	switch s.VersionKind {
 	case 1:
-		kvs = append(kvs, kv{"version", "0.6"})
+		if s.VersionNum != "" {
+			kvs = append(kvs, kv{"version", s.VersionNum})
+		} else {
+			kvs = append(kvs, kv{"version", "0.6"})
+		}
 	case 2:
 		kvs = append(kvs, kv{"version", jstr(d.Version)})
 	}
@@ -139,6 +162,7 @@ func RenderJSON(d *Doc, s JSONStyle) string {
 	}
 	var els []string
 	for _, it := range d.Items {
+		w.noType = s.NoTypeAt > 0 && len(els) == s.NoTypeAt-1
 		switch {
 		case it.Node != nil:
 			els = append(els, w.node(it.Node))
@@ -191,4 +215,15 @@ func JSONView(d *Doc, s JSONStyle) *Doc {
 		}
 	}
 	return out
+}
+
+// CountElements returns how many nodes, ways and relations RenderJSON writes.
+func CountElements(d *Doc) int {
+	n := 0
+	for _, it := range d.Items {
+		if it.Node != nil || it.Way != nil || it.Relation != nil {
+			n++
+		}
+	}
+	return n
 }
